@@ -23,7 +23,7 @@ from ..dataflow import expr_leaves, flow_of, select_path
 from ..engine import Context, Reporter
 from ..model import AnalysisError, ClassInfo, FuncInfo, dotted, norm_text, walk_no_nested
 from ..records import PARTICLE_FIELDS, Site, Tagger, discover_sites, name_tag
-from ..util import call_arg, calls_in, calls_in_node, conds_holding_at, is_none_test, unparse
+from ..util import call_arg, calls_in, calls_in_node, conds_holding_at, is_none_test, split_cond, unparse
 
 PROP = "C07"
 EXPLANATION = (
@@ -457,16 +457,107 @@ def _const_set(mod, e: Optional[ast.expr]) -> Optional[Set[str]]:
     return None
 
 
+# ------------------------------------------------------------------ C07.f
+def _correlated_block(cfg, facts):
+    """Edge filter for path queries: an edge labelled with a branch condition
+    whose text equals a fact known to hold (same test, opposite polarity) is
+    infeasible (the guard's operands are attributes/locals not reassigned on
+    these short paths)."""
+    held = {(norm_text(t), pol) for (t, pol) in facts}
+
+    def blocked(a, b, lab):
+        if lab and lab[0] == "cond":
+            for (t, pol) in split_cond(lab[1], lab[2]):
+                if (norm_text(t), not pol) in held:
+                    return True
+        return False
+
+    return blocked
+
+
+def rule_f(ctx: Context, R: Reporter):
+    """Write-back coherence: a local particle array that was already stored
+    (the state manager stores copies) and is then updated in place must be
+    stored again on every path, for every record field."""
+    n = 0
+    for fi in ctx.prog.functions.values():
+        flow = flow_of(fi.node)
+        cfg = flow.cfg
+        writes = [a for a in ctx.state.in_func(fi, include_nested=False) if a.mode == "write" and a.key in PARTICLE_FIELDS and isinstance(a.value, ast.Name)]
+        if not writes:
+            continue
+        for nd in cfg.stmt_nodes():
+            if nd.kind != "stmt" or not isinstance(nd.stmt, ast.Assign) or not isinstance(nd.stmt.targets[0], ast.Subscript) or not isinstance(nd.stmt.targets[0].value, ast.Name):
+                continue
+            var = nd.stmt.targets[0].value.id
+            before = [a for a in writes if a.value.id == var and flow.node_containing(a.call) is not None and cfg.reaches(flow.node_containing(a.call).id, nd.id)
+                      and {d.node.id if d.node else -1 for d in flow.reaching(flow.node_containing(a.call), var)} == {d.node.id if d.node else -1 for d in flow.reaching(nd, var)}]
+            if not before:
+                continue
+            key = before[0].key
+            n += 1
+            after = [flow.node_containing(a.call) for a in writes if a.value.id == var and a.key == key and flow.node_containing(a.call) is not None and cfg.reaches(nd.id, flow.node_containing(a.call).id)]
+            facts = conds_holding_at(cfg, nd)
+            ok = bool(after) and not cfg.reaches(nd.id, cfg.exit.id, blocked=[x.id for x in after], blocked_edges=_correlated_block(cfg, facts))
+            R.check(
+                "C07.f", f"{fi.short}: in-place update of `{var}` after it was stored under '{key}' is written back on every path", ok, fi, nd.stmt,
+                msg=f"{fi.short}: `{unparse(nd.stmt)[:60]}` changes rows of `{var}` after a copy was stored under key '{key}', and some path to the end of the function never stores it again: "
+                    f"the state keeps the stale '{key}' of the replaced rows while the other fields are updated (incoherent records)", key=f"write-back:{fi.short}:{key}",
+            )
+    R.floor("C07.f", "in-place updates of already-stored particle arrays", n, 3)
+
+
+# ------------------------------------------------------------------ C07.g
+REWRITERS = {"nan_to_num", "clip", "where", "maximum", "minimum", "fmax", "fmin", "abs", "absolute", "round", "around", "rint", "floor", "ceil", "sign", "nanmax", "nanmin", "sort", "cumsum"}
+
+
+def rule_g(ctx: Context, R: Reporter):
+    """Likelihood values travel unmodified from the user's callable to storage."""
+    n_fn = 0
+    for fi in ctx.prog.functions.values():
+        tg = Tagger(ctx, fi)
+        calls = [c for c in calls_in(fi.node) if tg.role_of_call(c) == "likelihood" or _is_user_like(c)]
+        if not calls:
+            continue
+        n_fn += 1
+        flow = flow_of(fi.node)
+        for c in calls_in(fi.node):
+            nm = ctx.res.external_name(fi, c) or ""
+            last = nm.split(".")[-1]
+            if not nm.startswith("numpy.") or last not in REWRITERS or not c.args:
+                continue
+            a0 = c.args[0]
+            at = flow.node_containing(c)
+            tagged = tg.tag(a0, at) == "logl" or any(tg.role_of_call(x) == "likelihood" or _is_user_like(x) for x in ast.walk(a0) if isinstance(x, ast.Call))
+            if last == "where" and len(c.args) == 3:
+                tagged = any(tg.tag(x, at) == "logl" for x in c.args[1:])
+            if tagged:
+                R.check("C07.g", f"{fi.short}: log-likelihood values are stored as the user's likelihood returned them", False, fi, c,
+                        msg=f"{fi.short}: `{unparse(c)[:70]}` rewrites log-likelihood values between the user's callable and storage (numpy's nan_to_num also maps -inf to -1.8e308 and NaN to 0.0): "
+                            f"a stored logL is no longer what the likelihood returns at the stored x", key=f"logl-rewritten:{norm_text(c)[:50]}")
+    R.floor("C07.g", "functions on the likelihood evaluation chain", n_fn, 3)
+    R.check("C07.g", f"no value-rewriting numpy call is applied to log-likelihoods in {n_fn} functions on the evaluation chain", True, None, None, key="scan", loc="tempest/")
+
+
+def _is_user_like(c: ast.Call) -> bool:
+    d = dotted(c.func)
+    if d.endswith("config.log_likelihood"):
+        return True
+    return any(dotted(a).endswith("config.log_likelihood") for a in c.args if isinstance(a, (ast.Attribute, ast.Name)))
+
+
 def run(ctx: Context, R: Reporter):
     rule_a(ctx, R)
     rule_b(ctx, R)
     rule_c(ctx, R)
     rule_d(ctx, R)
     rule_e(ctx, R)
+    rule_f(ctx, R)
+    rule_g(ctx, R)
 
 
 def variants():
-    from ..variants import Variant, alpha_rename, delete_stmt, insert_after, insert_before, replace_expr, replace_if, replace_stmt
+    from ..variants import Variant, alpha_rename, delete_stmt, edit, insert_after, insert_before, replace_expr, replace_if, replace_stmt
 
     mc = "tempest/mcmc.py"
     rs = "tempest/steps/resample.py"
@@ -490,8 +581,35 @@ def variants():
         Variant("c-tpcn-no-map", "bad", delete_stmt(mc, "TPCNRunner._propose", "proposal = apply_boundary_conditions(proposal, self.periodic, self.reflective)"), ["C07.c"]),
         Variant("d-swap-u-x-unpack", "bad", replace_expr(mu, "Mutator.run", "{'u': u, 'x': x, 'logl': logl, 'efficiency': efficiency, 'acceptance': acceptance, 'steps': steps}", "{'u': x, 'x': u, 'logl': logl, 'efficiency': efficiency, 'acceptance': acceptance, 'steps': steps}"), ["C07.d"], quick=True),
         Variant("e-commit-skips-blobs", "bad", replace_expr(sm, "StateManager.commit_current_to_history", "current_key in HISTORY_STATE_KEYS", "current_key in HISTORY_STATE_KEYS and current_key != 'blobs'"), ["C07.e"]),
+        Variant("f-writeback-omits-blobs", "bad", edit(mu, "Mutator.run", _merge_writebacks(("x", "u", "logl"))), ["C07.f"], quick=True),
+        Variant("f-writeback-omits-x", "bad", edit(mu, "Mutator.run", _merge_writebacks(("u", "logl", "blobs"))), ["C07.f"]),
+        Variant("g-nan-to-num-kernel", "bad", insert_before(mc, "BaseMCMCRunner._evaluate_likelihood", "self.n_calls += self.n_walkers", "logl_prime = np.nan_to_num(logl_prime)"), ["C07.g"], quick=True),
+        Variant("g-nan-to-num-wrapper", "bad", replace_expr(core, "SamplerCore._log_like", "(self.config.log_likelihood(x), None)", "(np.nan_to_num(self.config.log_likelihood(x), nan=-np.inf), None)"), ["C07.g"]),
         Variant("benign-rename-mask", "benign", alpha_rename(mc, "BaseMCMCRunner.run", "mask_accept", "accepted"), quick=True),
         Variant("benign-rename-xprime", "benign", alpha_rename(mc, "BaseMCMCRunner.run", "x_prime", "xp")),
         Variant("benign-rename-idx", "benign", alpha_rename(rs, "Resampler.run", "idx_resampled", "picks"), quick=True),
         Variant("benign-rename-logl-prime", "benign", alpha_rename(mc, "BaseMCMCRunner.run", "logl_prime", "ll_new")),
     ]
+
+
+def _merge_writebacks(keep):
+    """Replace the per-field write-backs after the -inf replacement by one update_current of `keep`."""
+    def fn(node, tree):
+        from ..variants import parse_stmts, replace_in_body
+
+        done = [False]
+        for n in ast.walk(node):
+            if isinstance(n, ast.If):
+                body = n.body
+                idx = [i for i, st in enumerate(body) if "set_current" in ast.unparse(st) and any(f"'{k}'" in ast.unparse(st) for k in ("x", "u", "logl", "blobs"))]
+                if len(idx) >= 3:
+                    first = idx[0]
+                    new = [st for i, st in enumerate(body) if i not in idx]
+                    d = ", ".join(f"'{k}': {k}" for k in keep)
+                    new.insert(first, parse_stmts("self.state.update_current({" + d + "})")[0])
+                    n.body = new
+                    done[0] = True
+                    break
+        return done[0]
+
+    return fn
